@@ -6,22 +6,29 @@ C20 — document-level composition of the resource loaders, in the order of `Doc
            build_formatting_structure (img / embed / object / list-style-image / content: url())
            layout_backgrounds (background-image)                                      [image fetches, one cache]
   write:   per page add_annotations (rel=attachment links, one fetch per distinct target), page.paint
-           (drawing an SVG image fetches its <image> elements through get_image_from_uri — same cache,
+           (drawing an SVG image — referenced by URL, or an inline <svg> element of the document — fetches its
+           <image> elements through get_image_from_uri — same cache,
            forced MIME type 'image/*' — and calls the fetcher directly for an external <use>; whatever is
            raised while an SVG is drawn is caught by SVGImage.draw: the rest of that SVG is not drawn)
            metadata attachments (<link rel=attachment>)
            _use_references → get_x_object  (PNG images held as LazyLocalImage are read from disk here)
            pdf.write                       (JPEG images held as LazyLocalImage are read from disk here)
 
+An `<image>` without `href` fetches nothing (799e002).  Fetches made while an SVG is drawn are followed to any depth
+(`Model/ResourcesSvg.lean`): an SVG image shown inside an SVG image is drawn with its own references, except when it is
+already being drawn (`_drawing` flag, 9598d29).
+
 The first escaping exception ends the stage (and the run).  No Mathlib.
 -/
 import WpModel.Model.Resources
+import WpModel.Model.ResourcesSvg
 
 namespace Wp.Res.Doc
 open Wp Wp.Res
 
 inductive ImgKind where
   | img | embed | object | background | listStyle | content | borderImage
+  | inlineSvg      -- an `<svg>` element of the HTML document (html.py `handle_svg`): no URL of its own
   deriving Repr, BEq, DecidableEq, Inhabited
 
 /-- A reference to an image in the document, with its *resolved* URL (`none`: attribute missing,
@@ -32,13 +39,7 @@ structure ImgRef where
   alt : Option String            -- `alt` attribute (img only)
   orient : Orient
   forcedMime : Option String     -- `type` attribute of embed / object
-  deriving Repr, BEq, DecidableEq, Inhabited
-
-/-- What drawing an SVG image fetches, in document order of the SVG (svg/images.py `image`,
-svg/defs.py `get_use_tree`). -/
-inductive SvgItem where
-  | image (url : Option String)    -- `<image>`: resolved `href` (`none`: no href — the fetcher is called with `None`)
-  | useExternal (url : String)     -- `<use>` of another document: `svg.url_fetcher(url)` called directly, result unused
+  inline : Option Nat := none    -- inline `<svg>`: identity of the element (its `<image>` / `<use>` elements: `svgInfo`)
   deriving Repr, BEq, DecidableEq, Inhabited
 
 structure Document where
@@ -76,6 +77,7 @@ def refBoxes (r : ImgRef) (image : Option Img) : List BoxOut :=
   | .img => handleImg r.url r.alt image
   | .embed => handleEmbed r.url image
   | .object => handleObject r.url image
+  | .inlineSvg => [.replaced]        -- `handle_svg`: `[make_replaced_box(element, box, SVGImage(element, base_url, …))]`
   | _ => match image with
     | some _ => [.replaced]
     | none => []
@@ -117,36 +119,25 @@ def localPaths (cache : Cache) (fmt : String) : List String :=
     | some (.raster f (.lazyLocal p) _) => if f == fmt then some p else none
     | _ => none)).eraseDups
 
-/-- `SVGImage.draw`: the fetches made while one SVG image is drawn.  `get_image_from_uri(url=None)` uses the
-key `'None from-image'` and hands `None` to the fetcher (written `"None"` here). -/
-def drawSvg (fetcher : Fetcher) (opts : Opts) : Cache → List SvgItem → Cache × List Ev
-  | cache, [] => (cache, [])
-  | cache, .useExternal u :: rest =>
-    let (c, evs) := drawSvg fetcher opts cache rest
-    (c, .call u :: evs)
-  | cache, .image url :: rest =>
-    let (cache', evs, out) := getImage cache fetcher opts ⟨url.getD "None", .fromImage, some "image/*"⟩
-    match out with
-    | .error _ => (cache', evs)        -- `except BaseException` in `SVGImage.draw`: logged, drawing of this SVG stops
-    | .ok _ =>
-      let (c, evs') := drawSvg fetcher opts cache' rest
-      (c, evs ++ evs')
-
 /-- The SVG image shown by a reference (`<img>`, `<embed>`, `<object>`), if any: its content id. -/
-def svgOfRef (cache : Cache) (r : ImgRef) : Option Nat :=
+def svgOfRef (opts : Opts) (cache : Cache) (r : ImgRef) : Option (String × Nat) :=
   match r.kind, r.url with
   | .img, some u | .embed, some u | .object, some u =>
     if u == "" then none
-    else match cache.find? (Req.key ⟨u, r.orient, r.forcedMime⟩) with
-      | some (some (.svg c)) => some c
+    else match cache.find? (Req.key ⟨u, r.orient, r.forcedMime⟩ opts) with
+      | some (some (.svg c)) => some (Req.key ⟨u, r.orient, r.forcedMime⟩ opts, c)
       | _ => none
+  -- an inline `<svg>` is an `SVGImage` of its own, not held by the cache (no cache key has this form: no space)
+  | .inlineSvg, _ => r.inline.map (fun c => ("inline-svg", c))
   | _, _ => none
 
-/-- `page.paint`: every SVG image shown is drawn, in document order. -/
-def paintSvgs (fetcher : Fetcher) (opts : Opts) (info : List (Nat × List SvgItem)) : Cache → List Nat → Cache × List Ev
+/-- `page.paint`: every SVG image shown (cache key of the `SVGImage`, content id) is drawn, in document order, with
+everything it includes (`Svg.drawObject`; the depth bound is never reached: `Wp.C20.Svg.svg_drawing_terminates`). -/
+def paintSvgs (fetcher : Fetcher) (opts : Opts) (info : List (Nat × List SvgItem)) :
+    Cache → List (String × Nat) → Cache × List Ev
   | cache, [] => (cache, [])
-  | cache, c :: rest =>
-    let (c1, e1) := drawSvg fetcher opts cache ((info.lookup c).getD [])
+  | cache, (key, c) :: rest =>
+    let (c1, e1, _) := Svg.drawObject fetcher opts info ((Svg.nestedKeys opts info).length + 2) [] cache key c
     let (c2, e2) := paintSvgs fetcher opts info c1 rest
     (c2, e1 ++ e2)
 
@@ -181,7 +172,7 @@ def run (d : Document) : DocOut :=
       match annotAttachments d.fetcher [] d.annotAttachments with
       | (evs, .error e) => { o with attachLog := evs, write := .error e }
       | (evs, .ok annots) =>
-        let painted := paintSvgs d.fetcher d.opts d.svgInfo cache (d.images.filterMap (svgOfRef cache))
+        let painted := paintSvgs d.fetcher d.opts d.svgInfo cache (d.images.filterMap (svgOfRef d.opts cache))
         let cache := painted.1
         let o := { o with attachLog := evs, annots := annots, paintLog := painted.2 }
         match metadataAttachments d.fetcher d.metaAttachments with
